@@ -87,6 +87,12 @@ prop('C12', 'model_checking', 'exhaustive enumeration of chains of undo-recordin
      'Every single-bit flip (quick: one per byte) of a tune2fs undo file and of the header/key area of a mke2fs undo file: e2undo either refuses without writing or restores exactly.',
      'tool-level (the undo manager is driven through the tools); image files truncated by resize2fs are re-extended to emulate a block device. Known finding: chains that mix filesystem block sizes on one undo file. One defect (write_byte offset applied twice) was repaired.', '4/C12')
 
+prop('C18', 'model_checking', 'exhaustive enumeration of all source trees of a small grammar (<= 2 entries, thorough 3, over 21 entry kinds, plus kind x metadata variant) x feature sets x two builders; independent image reader vs lstat walk of the source; extraction compared with the source',
+     'Every tree with up to 2 (thorough 3) entries drawn from 21 kinds (file sizes around block boundaries, holes at start/middle/end, allocated zero blocks, data beyond 4 GiB, symlinks of 2/59/60/300 bytes, hard link, char/block device with 20-bit minor, fifo, socket, nested directory) and every kind x one metadata variant '
+     '(setuid/sticky/0000 modes, owners 1000 and 70000, mtime 0/1/2^31-1, user xattr) is built by mke2fs -d and by a debugfs script on 2 (thorough 6) feature sets; an independent reading of the image must equal the lstat walk of the source in names, types, rdev, sizes, content block by block, holes, '
+     'targets, link groups and counts, 12 mode bits, owners, mtime seconds and user xattrs; e2fsck -fn = 0, independent checker clean, rebuild byte-identical; debugfs rdump / dump -p output compared with the source.',
+     'source trees live on the scratch tmpfs, built as root. Known finding: sparse files on inline_data filesystems. Two defects were repaired (inline-data reads returned the inline area size; rdump did not restore symlink owners).', '4/C18')
+
 def main():
     props = [json.loads(l) for l in open(os.path.join(V, 'properties.jsonl'))]
     checks, na = [], []
